@@ -122,7 +122,8 @@ def main() -> int:
         for b in broken:
             print("  note: no longer checks: " + b[:400])
     if broken and not unknown:
-        path = C.write_replay(prop, "unchecked", {"property": prop, "seed": seed, "no_longer_checks": broken, "build_log": build.log[-4000:] if build and not build.ok else "", "facts": C.jsonable(facts)})
+        path = C.write_replay(prop, "unchecked", {"property": prop, "seed": seed, "no_longer_checks": broken, "build_log": build.log[-4000:] if build and not build.ok else "", "facts": C.jsonable(facts),
+                                                  "disagreements": C.jsonable(res.disagreements[:5]), "n_disagreements": len(res.disagreements)})
         print(f"VIOLATION property={prop} replay={path} no-failing-input-found")
         for b in broken:
             print("  " + b[:600])
